@@ -300,8 +300,9 @@ CHECK = Check(
           'other batch indices on the SAME context incl. later and repeated ones), a second insertion order, multiprocessing client '
           'on every 5th case. Non-trivial = >=2 stochastic nodes with a dependency between two of them and a non-empty history. '
           'sampler part: seeded Rejection/SMC runs repeated after a history and on a 2-worker multiprocessing client.'),
-    parts=[Part('graph', run_graph, strategy=strat_graph, examples={'quick': 800, 'thorough': 32000}),
-           Part('sampler', run_sampler, strategy=strat_sampler, examples={'quick': 100, 'thorough': 4000},
+    # fuzz=False: both parts keep a real 2-worker process pool alive, which must not outlive a libFuzzer process
+    parts=[Part('graph', run_graph, strategy=strat_graph, examples={'quick': 800, 'thorough': 32000}, fuzz=False),
+           Part('sampler', run_sampler, strategy=strat_sampler, examples={'quick': 100, 'thorough': 4000}, fuzz=False,
                 shards={'quick': 4, 'thorough': 16})],
     assumptions=['dask / ipyparallel clients are not exercised (the statement names in-process and worker processes)',
                  "meta['submission_index'] legitimately depends on history and is excluded from the compared terms",
